@@ -108,18 +108,6 @@ def _oer_utf8_fixed(env, mod, t, v, codec):
                     and len(nv.encode('utf-8')) != len(nv))
 
 
-@carve('oer-integer-extensible-treated-as-constrained', ['C01', 'C06', 'C16', 'C18', 'C19', 'C13', 'C07'])
-def _oer_int_ext(env, mod, t, v, codec):
-    """OER INTEGER (lb..ub, ...): the extensible constraint is used to pick a
-    fixed unsigned/signed width; values outside it are mangled."""
-    if codec != 'oer':
-        return False
-    if CURRENT_PROP == 'C06':       # values inside the root are written in the constrained form too
-        return any_type(env, mod, t, lambda r: r.base.kind == 'INTEGER' and r.rng is not None and r.rng.ext)
-    return any_node(env, mod, t, v, lambda r, nv: r.base.kind == 'INTEGER' and r.rng is not None
-                    and r.rng.ext and isinstance(nv, int) and not r.rng.contains(nv))
-
-
 # ---- structural predicates (need tagging) ---------------------------------
 from .asn import tagging
 from .asn.ast import flat_additions, Group
@@ -581,15 +569,6 @@ def _per_open_empty(env, mod, t, v, codec):
                     return True
         return False
     return any_node(env, mod, t, v, pred)
-
-
-@carve('oer-bmp-universal-string-fixed-size-has-length', ['C06'])
-def _oer_bmp_fixed(env, mod, t, v, codec):
-    """OER BMPString / UniversalString with a fixed SIZE are written with a length determinant."""
-    if codec != 'oer':
-        return False
-    return any_type(env, mod, t, lambda r: r.base.kind in ('BMPString', 'UniversalString') and r.size is not None
-                    and not r.size.ext and r.size.lo is not None and r.size.lo == r.size.hi)
 
 
 @carve('oer-addition-group-members-are-separate-additions', ['C06'])
